@@ -34,9 +34,11 @@ var programs = map[string][]byte{
 	"loop":         initCode("5b600056"),                 // out of gas
 	"ctor-revert":  hexb("60006000fd"),                   // constructor reverts
 	"log":          initCode("60006000a000"),             // LOG0
+	// CALL(gas, address from calldata, CALLVALUE) then REVERT: touches another account inside a frame that is rolled back
+	"touch-revert": initCode("6000600060006000346000355af15060006000fd"),
 }
 
-var programNames = []string{"store", "revert", "selfdestruct", "forward", "loop", "ctor-revert", "log"}
+var programNames = []string{"store", "revert", "selfdestruct", "forward", "loop", "ctor-revert", "log", "touch-revert"}
 
 func (s *Sim) signer(n *kit.Node, h uint64) types.Signer {
 	return types.MakeSigner(n.BC.Config(), &h)
@@ -62,25 +64,63 @@ func (s *Sim) workloadStep() {
 	from := kit.AddrOf(key)
 	nonce := s.userNonce[u]
 	var tx *types.Transaction
-	kind := []string{"transfer", "create", "call", "transfer-all-gas"}[s.tape.Weighted(5, 3, 3, 1)]
+	kind := []string{"transfer", "create", "call", "transfer-all-gas", "prefund-next-create"}[s.tape.Weighted(5, 3, 3, 1, 1)]
+	if s.forceCreate != "" {
+		kind = "create"
+	}
 	switch kind {
 	case "transfer", "transfer-all-gas":
 		to := kit.AddrOf(s.spec.UserKeys[(u+1+s.tape.Draw(len(s.spec.UserKeys)-1))%len(s.spec.UserKeys)])
+		if len(s.followUps) > 0 && s.tape.Chance(1, 2) {
+			// money to an address an earlier transaction did something unusual to (a creation on
+			// an address that already held money): whoever reads it next must see the same account
+			to = s.followUps[s.tape.Draw(len(s.followUps))]
+			kind += ":revisit"
+		}
 		gas := uint64(21000)
-		if kind == "transfer-all-gas" {
+		if kind == "transfer-all-gas" || kind == "transfer-all-gas:revisit" {
 			gas = 90000
 		}
 		tx = types.NewTransaction(nonce, to, big.NewInt(int64(1+s.tape.Draw(1000))), gas, gwei, nil)
+	case "prefund-next-create":
+		if len(s.followUps) < 8 {
+			s.followUps = append(s.followUps, createAddress(from, nonce+1))
+		}
+		// money sent to the address the sender's next contract creation will get; the creation
+		// that follows runs (and, for half of the programs, fails) on an address that already exists
+		tx = types.NewTransaction(nonce, createAddress(from, nonce+1), big.NewInt(int64(1+s.tape.Draw(1000))), 21000, gwei, nil)
+		s.forceCreate = []string{"ctor-revert", "loop", "store", "selfdestruct"}[s.tape.Draw(4)]
 	case "create":
 		p := programNames[s.tape.Draw(len(programNames))]
-		tx = types.NewContractCreation(nonce, big.NewInt(int64(s.tape.Draw(3))), 200000, gwei, programs[p])
+		if s.forceCreate != "" {
+			p = s.forceCreate
+			if p == "loop" {
+				p = "ctor-loop"
+			}
+			s.forceCreate = ""
+		}
+		code := programs[p]
+		if p == "ctor-loop" {
+			code = hexb("5b600056") // the constructor itself runs out of gas
+		}
+		tx = types.NewContractCreation(nonce, big.NewInt(int64(s.tape.Draw(3))), 200000, gwei, code)
 		kind += ":" + p
 	case "call":
 		if len(s.contracts) == 0 {
 			return
 		}
 		c := s.contracts[s.tape.Draw(len(s.contracts))]
-		tx = types.NewTransaction(nonce, c, big.NewInt(int64(s.tape.Draw(5))), uint64(30000+s.tape.Draw(3)*40000), gwei, nil)
+		// calldata: the address of another known contract (read by touch-revert contracts, ignored by the others)
+		var data []byte
+		if s.tape.Chance(1, 2) {
+			o := s.contracts[s.tape.Draw(len(s.contracts))]
+			data = common.LeftPadBytes(o.Bytes(), 32)
+		}
+		gas := uint64(30000 + s.tape.Draw(3)*40000)
+		if data != nil {
+			gas += 2200
+		}
+		tx = types.NewTransaction(nonce, c, big.NewInt(int64(s.tape.Draw(5))), gas, gwei, data)
 	}
 	h := n.BC.CurrentBlock().Height() + 1
 	stx, err := types.SignTx(s.signer(n, h), tx, key)
